@@ -21,7 +21,8 @@ class Game:
     def __init__(self, players, tl, finals, rewards=None):
         self.n = len(players)
         self.players = list(players)
-        self.tl = [list(t) for t in tl]
+        # a probabilistic transition listed with probability 0 is never taken: it is not an edge of the game
+        self.tl = [[tr for tr in t if not (players[s] == PR and not isinstance(tr[0], str) and tr[0] == 0)] for s, t in enumerate(tl)]
         self.finals = set(finals)
         self.rewards = [F(r) for r in rewards] if rewards is not None else [F(0)] * self.n
 
